@@ -501,12 +501,13 @@ def _c12_native_findings(dst, tier, seed, ev):
 PROPS["C12"] = dict(
     prefix="c12_",
     post=_c12_native_findings,
-    overlays=[("lib.rs", "vk_c12.rs")],
+    overlays=[("lib.rs", "vk_c12.rs"), ("parse", "vk_c04p.rs")],
     # With alloc::vec::from_elem stubbed, Kani's C model of __rust_dealloc reports a size mismatch for vectors created by
     # the stub's own call of from_elem_in on the UNCHANGED tree (not reproducible natively; a model artefact of stubbing an
     # allocation entry point). Those C-level checks are ignored for this one harness; they do not end paths, so the
     # harness's own bound assertion is still decided on every path.
-    per_harness={r"c12_q_tileset_declared_sizes": dict(ignore_checks=r"^__rust_dealloc\.")},
+    per_harness={r"c12_._tileset_(declared_sizes|compressed_length_.*)": dict(ignore_checks=r"^__rust_dealloc\."),
+                 r"c12_q_read_all_declared_count": dict(ignore_checks=r"^__rust_dealloc\.", mem_gb=10, timeout=900)},
     bounds="largest single Vec::with_capacity request (recorded by a stub) for: a raw image cel with declared width x height over all "
            "of u16 x u16 in a 24-byte chunk; an external-files chunk with entry count over all of u32; a tags chunk with count over all of u16; "
            "every vec![0; n] request while a tileset chunk with symbolic tile count, tile size and compressed-length field is decoded",
